@@ -299,11 +299,15 @@ impl Model {
                 return Expect::Filtered;
             }
         }
-        // ---- resource limits under the three counting conventions
-        let count = |conv: u8, insts: &BTreeMap<u32, MInst>| -> (i64, i64, i64, bool) {
-            // (samples of this instance, total samples, instances, this instance present)
+        // ---- resource limits under the counting conventions the specification leaves open:
+        //   conv 0: only valid-data samples count; 1: invalid (notification) samples count too;
+        //   2: additionally every known instance counts as an instance, even without samples;
+        //   with_opt: data samples that a dispose/unregister notification may have pushed out of a
+        //   full KEEP_LAST instance (still `optional` in the model) are counted / not counted.
+        let count = |conv: u8, with_opt: bool, insts: &BTreeMap<u32, MInst>| -> (i64, i64, i64, bool, i64) {
+            // (samples of this instance, total samples, instances, this instance present, valid samples of this instance)
             let cnt = |i: &MInst| -> i64 {
-                i.samples.iter().filter(|s| s.valid || conv >= 1).count() as i64
+                i.samples.iter().filter(|s| if s.valid { with_opt || !s.optional } else { conv >= 1 }).count() as i64
             };
             let ci = insts.get(&key).map(cnt).unwrap_or(0);
             let ct: i64 = insts.values().map(cnt).sum();
@@ -312,37 +316,43 @@ impl Model {
             } else {
                 (insts.values().filter(|i| cnt(i) > 0).count() as i64, ci > 0)
             };
-            (ci, ct, ninst, present)
+            let vi = insts.get(&key).map(|i| i.samples.iter().filter(|s| s.valid && (with_opt || !s.optional)).count()).unwrap_or(0) as i64;
+            (ci, ct, ninst, present, vi)
         };
         let valid_inst = self.insts.get(&key).map(|i| i.samples.iter().filter(|s| s.valid).count()).unwrap_or(0) as i64;
+        // for the model's own bookkeeping: with the possibly-evicted samples counted the oldest valid
+        // sample goes; without them the new sample is appended - the resulting set is the same
         let at_depth = cfg.depth.map(|d| valid_inst >= d as i64).unwrap_or(false);
         let mut decisions: Vec<Vec<Reason>> = Vec::new();
-        for conv in 0..3u8 {
-            let (ci, ct, ninst, present) = count(conv, &self.insts);
-            let mut r = Vec::new();
-            if at_depth {
-                // replacement keeps every count unchanged; only a full total under this convention is doubtful
-                if cfg.max_samples.map(|m| ct > m as i64).unwrap_or(false) {
-                    r.push(Reason::Samples);
+        for with_opt in [true, false] {
+            for conv in 0..3u8 {
+                let (ci, ct, ninst, present, vi) = count(conv, with_opt, &self.insts);
+                let at_depth_here = cfg.depth.map(|d| vi >= d as i64).unwrap_or(false);
+                let mut r = Vec::new();
+                if at_depth_here {
+                    // replacement keeps every count unchanged; only an over-full total is doubtful
+                    if cfg.max_samples.map(|m| ct > m as i64).unwrap_or(false) {
+                        r.push(Reason::Samples);
+                    }
+                } else {
+                    if cfg.max_samples.map(|m| ct >= m as i64).unwrap_or(false) {
+                        r.push(Reason::Samples);
+                    }
+                    if cfg.max_instances.map(|m| !present && ninst >= m as i64).unwrap_or(false) {
+                        r.push(Reason::Instances);
+                    }
+                    if cfg.max_spi.map(|m| ci >= m as i64).unwrap_or(false) {
+                        r.push(Reason::Spi);
+                    }
                 }
-            } else {
-                if cfg.max_samples.map(|m| ct >= m as i64).unwrap_or(false) {
-                    r.push(Reason::Samples);
-                }
-                if cfg.max_instances.map(|m| !present && ninst >= m as i64).unwrap_or(false) {
-                    r.push(Reason::Instances);
-                }
-                if cfg.max_spi.map(|m| ci >= m as i64).unwrap_or(false) {
-                    r.push(Reason::Spi);
-                }
+                decisions.push(r);
             }
-            decisions.push(r);
         }
         let any_reject = decisions.iter().any(|d| !d.is_empty());
         let all_reject = decisions.iter().all(|d| !d.is_empty());
         if any_reject && !all_reject {
             self.stat("model_unsure_limit_convention", 1);
-            return Expect::Unsure("resource-limit counting conventions (invalid samples / empty instances) disagree".into());
+            return Expect::Unsure("resource-limit counting conventions (invalid samples / empty instances / data sample possibly pushed out by a notification at depth) disagree".into());
         }
         // ---- instance life cycle
         let inst = self.insts.entry(key).or_insert_with(|| MInst {
@@ -797,6 +807,14 @@ impl Model {
                 inst.na_since_access = false;
             }
             let mut remove: Vec<usize> = m.absent.clone();
+            for mi in &m.absent {
+                let s = &inst.samples[*mi];
+                if s.valid {
+                    if let Some(ft) = self.fate.get_mut(&(s.w, s.seq)) {
+                        ft.2 = Fate::Evicted;
+                    }
+                }
+            }
             for (mi, _) in &m.pairs {
                 if op.take {
                     let s = &inst.samples[*mi];
